@@ -162,7 +162,7 @@ def run_property(pid, spec: PropertySpec, tier, seed, t0):
             kf_emitted.append((k, o["name"]))
             continue
         # try to find a native failing input for this obligation
-        nat = [f for f in native.get("failures", []) if f.get("obligation") and f["obligation"] in o["name"]]
+        nat = [f for f in native.get("failures", []) if f.get("obligation") and f["obligation"] in o["name"] and match_kf(f.get("id", "") + " " + f.get("what", "")) is None]
         payload = {"property": pid, "obligation": o["name"], "function": o.get("function", o.get("label")), "verdict": o["verdict"],
                    "backend": o.get("backend", "z3"), "solver_model": o.get("model"), "label": o.get("label"),
                    "verifier_output": o.get("output"), "replay_cmd": f"./check {pid} --replay <this file>"}
@@ -176,11 +176,11 @@ def run_property(pid, spec: PropertySpec, tier, seed, t0):
             f = write_replay(pid, o["name"], payload)
             violations.append(f"VIOLATION property={pid} replay={f} obligation=\"{o['name'][:150]}\" no-failing-input-found")
     for fl in native.get("failures", []):
-        if fl.get("obligation") and any(fl["obligation"] in o["name"] for o in failed):
-            continue
         k = match_kf(fl.get("id", "") + " " + fl.get("what", ""))
         if k is not None:
             kf_emitted.append((k, fl.get("id", "")))
+            continue
+        if fl.get("obligation") and any(fl["obligation"] in o["name"] and match_kf(o["name"]) is None for o in failed):
             continue
         payload = {"property": pid, "obligation": fl.get("obligation", "bounded-native"), "native_input": fl, "confirmed_natively": True,
                    "replay_cmd": f"./check {pid} --replay <this file>"}
